@@ -537,8 +537,19 @@ class ResourceScenario(ScenarioData):
         # Working hours are defined in local time, but slots are in UTC
         resource_tz = self.property.get("timezone", self.scenarioIdx)
 
-        # Check if resource has a shift reference
+        # Check if resource has a shift reference. A shift that is merely inherited from an
+        # enclosing group does not override working hours written closer to the resource
+        # (on the resource itself or on a nearer group): the nearest statement wins, exactly
+        # as it does when the group repeats the hours inline instead of naming a shift.
         shift = self.property.get("shifts", self.scenarioIdx)
+        node: Any = self.property
+        while shift and node is not None:
+            if node.provided("shifts", self.scenarioIdx):
+                break
+            if node.provided("workinghours", self.scenarioIdx):
+                shift = None
+                break
+            node = node.parent
         if shift:
             # Use the shift's working hours
             shift_wh = shift.get("workinghours", self.scenarioIdx)
